@@ -803,3 +803,40 @@ class BNAddCpds(Contract):
 
 
 register(BNAddCpds())
+
+
+class BNRemoveCpds(Contract):
+    """BayesianNetwork.remove_cpds(cpd) with an attached CPD object (the list holds no object twice): afterwards the list holds exactly
+    the other CPDs and the graph is untouched.  (An object that is not attached makes list.remove raise ValueError - precondition here;
+    the form remove_cpds(node_name) goes through get_cpds; both are covered by the bounded groups.)"""
+    file = "pgmpy/models/BayesianNetwork.py"
+    qual = "BayesianNetwork.remove_cpds"
+
+    def variants(self, ex):
+        g = new_bn()
+        g.fields["cpds"] = Coll("list", Opaque, z3.Const("cpds", set_sort(Opaque)), nodup=True)
+        yield "cpd-object", {"self": g}, {"positional": [g, Scalar(z3.Const("the_cpd", Opaque), "BaseFactor")]}
+
+    def pre(self, ex, st, args):
+        return z3.And(wf_graph(args["self"]), args["self"].fields["cpds"].mem[z3.Const("the_cpd", Opaque)])
+
+    def snapshot(self, ex, st, args):
+        old = graph_snapshot(args["self"])
+        old["cpds"] = args["self"].fields["cpds"].mem
+        return old
+
+    def havoc(self, ex, st, args):
+        L = args["self"].fields["cpds"]
+        L.mem, L.items, L.len_z, L.seq = fresh("cpds_after", set_sort(Opaque)), None, None, None
+
+    def the(self, st):
+        return st.env["cpds"].items[0].z
+
+    def post(self, ex, st, args, old, result):
+        y = fresh("y", Opaque)
+        c = self.the(st)
+        return {"content": z3.ForAll([y], args["self"].fields["cpds"].mem[y] == z3.And(old["cpds"][y], y != c)),
+                "graph-untouched": graph_unchanged(args["self"], old)}
+
+
+register(BNRemoveCpds())
